@@ -386,6 +386,26 @@ def scenarios(tier):
                 'dup-start_task' in scn.name):
             jobs.append((common.variant(scn, '/overlap', rp=True),
                          0 if quick else 1, 40 if quick else 1200, 1))
+    # every policy program of C08 without a timeout (retry matrix, waits,
+    # fail-on, with-items and sub-workflow tasks under policies): a result
+    # delivered a second time while the task is delayed, waits for its next
+    # attempt or already runs it
+    from checks import c08 as _c08
+    for name, prog, res, extra in _c08.programs(tier):
+        if 'menu' in extra or 'timeout' in json.dumps(prog) or \
+                name.startswith('retry_expr'):
+            continue
+        kinds = ['on_action_complete'] if quick else \
+            ['on_action_complete', 'start_task']
+        if name.startswith('sub_'):
+            kinds += ['wf_result'] if quick else ['wf_result',
+                                                  'start_workflow']
+        kw = {k: v for k, v in extra.items() if k != 'clock_devs'}
+        for kind in kinds:
+            scn = DupScenario('policy/%s/dup-%s' % (name, kind), prog,
+                              results=res, dup_kinds=[kind],
+                              max_dups=1 if quick else 2, **kw)
+            jobs.append((scn, 0 if quick else 1, 40 if quick else 1200, 1))
     return jobs
 
 
